@@ -314,6 +314,61 @@ pub fn known_match<'a>(k: &'a KnownFindings, viol: &Violation) -> Option<&'a Kno
     })
 }
 
+/// Seconds a single case may take before the watchdog calls it a hang (a busy loop inside one
+/// poll). The slowest legitimate cases take a few seconds under load.
+fn watchdog_limit() -> u64 {
+    std::env::var("VERIF_WATCHDOG_SECS").ok().and_then(|s| s.parse().ok()).unwrap_or(120)
+}
+
+fn hang_class(prop: &str) -> String {
+    format!("{prop}/hang/poll-never-returned")
+}
+
+/// Called from the monitor thread: the case with this index has been executing for `secs`
+/// seconds. Writes a regenerating replay file and a minimal evidence file, prints the VIOLATION.
+fn report_hang(opt: &Options, idx: u64, systematic: bool, secs: u64) {
+    let prop = opt.property.as_str();
+    let (replay_dir, evidence_dir) = dirs(opt);
+    std::fs::create_dir_all(&replay_dir).ok();
+    std::fs::create_dir_all(&evidence_dir).ok();
+    let class = hang_class(prop);
+    let fname = format!("{replay_dir}/{prop}-{}-{}{}-hang.json", opt.seed, if systematic { "sys" } else { "" }, idx);
+    let rf = ReplayFile {
+        property: prop.to_string(),
+        class: class.clone(),
+        message: format!("a poll of a library future has not returned for {secs} s: busy loop (no step list can be recorded for a run that never finishes; the replay regenerates it from seed and index)"),
+        seed: opt.seed,
+        run: idx,
+        profile: format!("(regenerated)/{}", opt.profile_tag),
+        aux: None,
+        scenario: Scenario { config: crate::scenario::Config::default(), steps: vec![] },
+        original_steps: 0,
+        regenerate: Some(crate::scenario::Regenerate { tier: opt.tier.name().to_string(), index: idx, systematic }),
+    };
+    std::fs::write(&fname, serde_json::to_string_pretty(&rf).unwrap()).expect("write replay file");
+    println!("VIOLATION property={prop} replay={fname}");
+    println!("  class:   {class}");
+    println!("  message: {}", rf.message);
+    let evidence = json!({
+        "property_id": prop,
+        "level": props::level(prop),
+        "tier": opt.tier.name(),
+        "seed": opt.seed,
+        "wall_s": secs as f64,
+        "violations": 1,
+        "coverage": {
+            "rule": props::rule(prop),
+            "evaluations": 0,
+            "exhaustive": false,
+            "note": "the batch was ended by the watchdog: one case never returned from a poll",
+            "violation_classes": [class],
+            "components": props::components(),
+        },
+        "assumptions": props::assumptions(prop),
+    });
+    std::fs::write(format!("{evidence_dir}/{prop}.json"), serde_json::to_string_pretty(&evidence).unwrap()).ok();
+}
+
 pub fn run_check(opt: &Options) -> i32 {
     let t0 = Instant::now();
     let prop = opt.property.as_str();
@@ -326,11 +381,37 @@ pub fn run_check(opt: &Options) -> i32 {
     let systematic: Vec<Case> = props::systematic(prop, opt.tier, opt.seed);
     let sys_len = systematic.len() as u64;
     let systematic = Mutex::new(systematic.into_iter().enumerate().collect::<Vec<_>>());
+    // watchdog: what each worker is executing and since when. A poll that never returns (a busy
+    // loop inside the library) cannot be interrupted from within its thread; the monitor reports
+    // it as a violation with a regenerating replay file and ends the process.
+    let slots: Vec<Mutex<Option<(Instant, u64, bool)>>> = (0..threads).map(|_| Mutex::new(None)).collect();
+    let finished = std::sync::atomic::AtomicBool::new(false);
+    let limit = watchdog_limit();
     std::thread::scope(|scope| {
+        {
+            let slots = &slots;
+            let finished = &finished;
+            scope.spawn(move || {
+                while !finished.load(std::sync::atomic::Ordering::Relaxed) {
+                    std::thread::sleep(std::time::Duration::from_millis(500));
+                    for s in slots.iter() {
+                        let cur = *s.lock().unwrap();
+                        if let Some((since, idx, sys)) = cur {
+                            if since.elapsed().as_secs() >= limit {
+                                report_hang(opt, idx, sys, since.elapsed().as_secs());
+                                std::process::exit(1);
+                            }
+                        }
+                    }
+                }
+            });
+        }
+        let mut workers = Vec::new();
         for t in 0..threads {
             let totals = &totals;
             let systematic = &systematic;
-            scope.spawn(move || {
+            let slot = &slots[t];
+            workers.push(scope.spawn(move || {
                 let mut local = Totals::new();
                 let absorb = |local: &mut Totals, idx: u64, case: Case, j: Judged| {
                     if case.systematic {
@@ -379,7 +460,9 @@ pub fn run_check(opt: &Options) -> i32 {
                     let next = systematic.lock().unwrap().pop();
                     let Some((i, case)) = next else { break };
                     let started = Instant::now();
+                    *slot.lock().unwrap() = Some((started, i as u64, true));
                     let j = judge(prop, &case.scenario, case.aux.as_ref());
+                    *slot.lock().unwrap() = None;
                     if started.elapsed().as_secs() >= 5 {
                         eprintln!("note: systematic case {i} ({}) took {:.1}s, {} steps, {} polls", case.profile, started.elapsed().as_secs_f64(), j.steps, j.polls);
                     }
@@ -389,8 +472,10 @@ pub fn run_check(opt: &Options) -> i32 {
                 while idx < random_runs {
                     let mut rng = Rng::derive(opt.seed, idx, 0);
                     let started = Instant::now();
+                    *slot.lock().unwrap() = Some((started, idx, false));
                     let case = props::generate(prop, opt.tier, &mut rng, idx);
                     let j = judge(prop, &case.scenario, case.aux.as_ref());
+                    *slot.lock().unwrap() = None;
                     if started.elapsed().as_secs() >= 5 {
                         eprintln!("note: run {idx} ({}) took {:.1}s, {} steps, {} polls", case.profile, started.elapsed().as_secs_f64(), j.steps, j.polls);
                     }
@@ -421,8 +506,12 @@ pub fn run_check(opt: &Options) -> i32 {
                 g.states.extend(local.states);
                 g.violations.extend(local.violations);
                 g.samples.extend(local.samples);
-            });
+            }));
         }
+        for w in workers {
+            let _ = w.join();
+        }
+        finished.store(true, std::sync::atomic::Ordering::Relaxed);
     });
     let mut totals = totals.into_inner().unwrap();
     let _ = sys_len;
@@ -468,6 +557,7 @@ pub fn run_check(opt: &Options) -> i32 {
                 aux: min_aux,
                 scenario: min_sc,
                 original_steps: case.scenario.steps.len(),
+                regenerate: None,
             };
             std::fs::write(&fname, serde_json::to_string_pretty(&rf).unwrap()).expect("write replay file");
             if std::env::var("VERIF_KEEP_ORIGINAL").is_ok() {
@@ -637,6 +727,37 @@ pub fn run_replay(path: &str) -> i32 {
             return 2;
         }
     };
+    if let Some(rg) = &rf.regenerate {
+        // a run that never returned: regenerate it on a helper thread and watch the clock
+        let tier = if rg.tier == "thorough" { Tier::Thorough } else { Tier::Quick };
+        let (prop, seed, index, systematic) = (rf.property.clone(), rf.seed, rg.index, rg.systematic);
+        let (tx, rx) = std::sync::mpsc::channel();
+        std::thread::spawn(move || {
+            let case = if systematic {
+                props::systematic(&prop, tier, seed).into_iter().nth(index as usize)
+            } else {
+                let mut rng = Rng::derive(seed, index, 0);
+                Some(props::generate(&prop, tier, &mut rng, index))
+            };
+            if let Some(case) = case {
+                let _ = judge(&prop, &case.scenario, case.aux.as_ref());
+            }
+            let _ = tx.send(());
+        });
+        let limit = watchdog_limit().min(60);
+        return match rx.recv_timeout(std::time::Duration::from_secs(limit)) {
+            Ok(()) => {
+                println!("NOT REPRODUCED: {} (the run finished; expected class {})", rf.property, rf.class);
+                0
+            }
+            Err(_) => {
+                println!("violation {}: the regenerated run has not returned from a poll for {limit} s", rf.class);
+                println!("VIOLATION property={} replay={path}", rf.property);
+                println!("reproduced: {}", rf.class);
+                std::process::exit(1);
+            }
+        };
+    }
     let j = judge(&rf.property, &rf.scenario, rf.aux.as_ref());
     let w = replay(&rf.scenario);
     for (i, e) in w.events().iter().enumerate() {
